@@ -14,18 +14,18 @@ Definition enc_opt_outcome (o : outcome (option (N * N))) : list N :=
   | UB => [3; 0; 0; 0]
   end.
 
-(* 1900: new [size; indirect; event_idx; bufsz; addrs...]; 1901: poll [bufsz; u_idx; u_id; u_len; addr; ae; uf] *)
+(* 1900: new [size; indirect; event_idx; bufsz; start; addrs...]; 1901: poll [bufsz; u_idx; u_id; u_len; addr; ae; uf; hres] *)
 Definition owning_step (st : option qstate) (k : N) (ins : list N) : option qstate * list N :=
   if k =? 1900 then
     match ins with
-    | size :: ind :: ev :: bufsz :: addrs =>
-        let '(o, s, evs) := owning_new_loop addrs 0 bufsz (qnew size (n2b ind) (n2b ev)) in
+    | size :: ind :: ev :: bufsz :: start :: addrs =>
+        let '(o, s, evs) := owning_new_loop addrs 0 bufsz (qset_indices (qnew size (n2b ind) (n2b ev)) start) in
         (Some s, enc_unit_outcome o ++ enc_qevs evs)
     | _ => (st, [77777]) end
   else if k =? 1901 then
     match st, ins with
-    | Some s, [bufsz; u_idx; u_id; u_len; addr; ae; uf] =>
-        let '(o, s', evs) := owning_poll s bufsz u_idx u_id u_len addr ae uf in
+    | Some s, [bufsz; u_idx; u_id; u_len; addr; ae; uf; hres] =>
+        let '(o, s', evs) := owning_poll s bufsz u_idx u_id u_len addr ae uf hres in
         (Some s', enc_opt_outcome o ++ enc_oevs evs)
     | _, _ => (st, [77777]) end
   else (st, [77777]).
@@ -33,12 +33,14 @@ Definition owning_step (st : option qstate) (k : N) (ins : list N) : option qsta
 (* 1950 monitor: [size; bufsz; posted_after; class; has; len; token; expected_token; bytes_match; u_len] *)
 Definition mon_owning (ins : list N) : bool :=
   match ins with
-  | [size; bufsz; posted; class; has; len; tok; exp_tok; bytes_ok; u_len] =>
-      if (class =? 0) && (has =? 1) then
-        (posted =? size) && (tok =? exp_tok) && (len =? u_len) && (len <=? bufsz) && (bytes_ok =? 1)
-      else if (class =? 0) then posted =? size        (* nothing pending: still fully stocked *)
-      else if class =? 1 then bufsz <? u_len         (* the only error a conforming-token device can cause *)
-      else false
+  | [size; bufsz; posted; class; has; len; tok; exp_tok; bytes_ok; u_len; hres] =>
+      (* whatever the handler answered and whatever length the device claimed: stocked again *)
+      (posted =? size)
+      && (if (class =? 0) && (has =? 1) then
+            (tok =? exp_tok) && (len =? u_len) && (len <=? bufsz) && (bytes_ok =? 1)
+          else if class =? 0 then true
+          else if class =? 1 then (bufsz <? u_len) || (hres =? 2)   (* the only errors a conforming-token device / the handler can cause *)
+          else false)
   | _ => false
   end.
 
